@@ -141,6 +141,14 @@ func gen(t *rapid.T) pairsim.Scenario {
 			sc.Ops[i].SlowMs = 0
 		}
 	}
+	// a stream server may be given a ProcessReceivedMessageFunc as well (on the unchanged tree its
+	// connections ignore it)
+	if sc.Transport == "tcp" && sc.Srv.Role == "server" && rapid.Bool().Draw(t, "tcpgopool") {
+		sc.Srv.GoPool = true
+		for i := range sc.Ops {
+			sc.Ops[i].SlowMs = 0
+		}
+	}
 	return sc
 }
 
